@@ -443,6 +443,30 @@ func classify(c Case) (bool, []string) {
 	var cls []string
 	add := func(s string) { cls = append(cls, s) }
 	for _, a := range c.Attrs {
+		if a.Name == "class" || a.Name == "style" {
+			continue
+		}
+		brk := func(s string) bool { return strings.ContainsAny(s, "\r\n") }
+		switch a.Kind {
+		case "static":
+			if brk(a.Text) {
+				add("line-break:static")
+			}
+		case "interp":
+			if v := c.lookup(a.Path, 0); brk(a.Text) || brk(a.Post) || (v.K == "string" && brk(v.S)) {
+				add("line-break:interpolated")
+			}
+		case "lit":
+			if brk(a.Text) || brk(a.Post) {
+				add("line-break:bracketed")
+			}
+		case "bind", "vbind":
+			if v := c.lookup(a.Text, 0); v.K == "string" && brk(v.S) {
+				add("line-break:bound")
+			}
+		}
+	}
+	for _, a := range c.Attrs {
 		if isOddName(a.Name) {
 			add("odd-name:" + a.Kind)
 			if strings.HasPrefix(a.Name, "data-v-") {
@@ -835,6 +859,8 @@ func tableVals() []vals.V {
 		vals.Str("url(https://x.test/v.png)"), vals.Str("red !important"), vals.Str("rgba(1, 2, 3, 0.5)"), vals.Str("local('a b'), serif"),
 		vals.Str("background-image: url(https://x.test/z.png); color: red"), vals.Str(`font-family: "Open Sans", serif; width: calc(50% + 1px)`),
 		vals.Str("background: url(http://h.test:8080/p.png) no-repeat; color: red !important"),
+		// line breaks, tabs, runs of blanks
+		vals.Str("first line\nsecond  line"), vals.Str("a\r\nb"), vals.Str("\ttab\n"), vals.Str("x\ry"), vals.Str("p\n\nq"),
 		// backslash escapes inside quoted strings
 		vals.Str(`"x\";y"`), vals.Str(`'it\'s;ok'`), vals.Str(`content: "x\";y"; width: 2px`), vals.Str(`--e: 'a\\'; color: red`),
 		// display declarations of the style itself
@@ -910,6 +936,10 @@ func coreForms() []form {
 			return []Attr{{Kind: "vobj", Name: "style", Pairs: []Pair{{Key: "--u", Q: true, Src: "path", Arg: x}, {Key: "boxShadow", Src: "str", Arg: "0 0 1px rgba(1, 2, 3, 0.5)"}, {Key: "color", Src: "str", Arg: "red !important"}}},
 				st("style", "color: blue; --u: url(http://h/p?q=r:s); grid-area: 1 / 2 / 3 / 4")}
 		}},
+		{"multiline-static", func(x string) []Attr {
+			return []Attr{st("title", "line one\n    line two"), st("alt", "a\r\nb\rc"), {Kind: "lit", Name: "data-note", Text: "l1\n\tl2  l3"},
+				{Kind: "interp", Name: "name", Text: "p\n", Path: x, Post: "\n\nq"}, {Kind: "bind", Name: "id", Text: x}, st("data-a", "\n x \n")}
+		}},
 		{"style-escape-static+show", func(x string) []Attr {
 			return []Attr{st("style", `color: red; content: "x\";y"; --e: 'a\\'; --f: 'it\'s;ok'; width: 1px`), {Kind: "show", Text: x}}
 		}},
@@ -982,6 +1012,8 @@ func corePlacements() []placement {
 	return []placement{
 		{"div", func(c *Case) {}},
 		{"root", func(c *Case) { c.Place = "root" }},
+		{"pre", func(c *Case) { c.Place = "pre" }},
+		{"textarea", func(c *Case) { c.Tag = "textarea" }},
 		{"v-if", func(c *Case) { front(c, dir("v-if", "yes")) }},
 		{"v-else", func(c *Case) { back(c, dir("v-else", "")) }},
 		{"v-else-if", func(c *Case) { back(c, dir("v-else-if", "yes")) }},
@@ -1025,13 +1057,16 @@ func enumerate(rec *ev.Rec, f *findings, shard, shards int) (int, bool) {
 			ok = false
 		}
 	}
-	for _, v := range tableVals() {
+	nBasic := len(vals.Scalars()) + len(vals.Containers())
+	for vi, v := range tableVals() {
 		for _, fm := range coreForms() {
 			extended := strings.HasPrefix(fm.name, "style-rich") || strings.HasPrefix(fm.name, "style-semicolon") || strings.HasPrefix(fm.name, "display-") ||
 				strings.HasPrefix(fm.name, "style-escape") || strings.HasSuffix(fm.name, "-ternary")
 			for _, pl := range corePlacements() {
-				if extended && !run.Thorough() {
-					// quick tier: the style-vocabulary forms go through the distinct evaluation paths only
+				if (extended || vi >= nBasic) && !run.Thorough() {
+					// quick tier: the style-vocabulary forms, and the values beyond the basic scalar /
+					// container table (special strings, punctuated and multi-line strings), go through
+					// the distinct evaluation paths only; thorough runs the full product
 					switch pl.name {
 					case "div", "v-if", "v-for", "tplfor", "slot", "v-html":
 					default:
@@ -1229,6 +1264,9 @@ func (b *builder) newVar(v vals.V) string {
 }
 
 func (b *builder) anyVal(label string) vals.V {
+	if chance(b.t, label+"-multiline", 12) {
+		return pick(b.t, label+"-ml", multiLineVals)
+	}
 	if chance(b.t, label+"-special", 12) {
 		return pick(b.t, label+"-sp", specialStrings())
 	}
@@ -1254,14 +1292,17 @@ var (
 	// names that look internal or directive-like without being so, and names with punctuation
 	oddNames = []string{"data-v-app", "data-v-7ba5bd90", "data-v-html", "data-v-text", "data-vx", "v", "vfor", "v_if", "data-v-html-content2",
 		"data-v-step", "x-v-if", "xml:lang", "a.b", "data_x", "aria-label", "x:y.z", "v.once", "vbind"}
-	staticTexts = []string{"x", "a b", "", "q1", "Mixed-Case_9", " pad ", "tail  ", "  lead"}
-	litNames    = []string{"v-if", "v-show", "v-for", ":lang", ":class", "v-bind:id", "v-html", "v-once", "v-else", ":style"}
-	litTexts    = []string{"x", "count", "a > b", "some text", "{a: b}", "item in items", " pad "}
-	simpleVals  = []vals.V{vals.Str("hello"), vals.Str("x"), vals.Int(7), vals.Str(""), vals.Bool(true), vals.Num("float64", "0.5"), vals.Str("a b"), vals.Nil()}
-	rowOnVals   = []vals.V{vals.Str("False"), vals.Str("FALSE"), vals.Str("00"), vals.Str(" false"), vals.Int(0), vals.Int(1), vals.Str(""), vals.Str("x"), vals.Nil(), vals.Num("uint8", "0"), vals.Num("float64", "0.5"), vals.Str("0"), vals.Num("float32", "0")}
-	truthyVals  = []vals.V{vals.Bool(true), vals.Int(1), vals.Str("x"), vals.Num("uint8", "3")}
-	classKeys   = []Pair{{Key: "k1"}, {Key: "k-2", Q: true}, {Key: "k3"}, {Key: "k4", Q: true}, {Key: "is-on", Q: true}}
-	styleKeys   = []Pair{{Key: "color"}, {Key: "fontSize"}, {Key: "backgroundColor"}, {Key: "borderTopWidth"}, {Key: "width"}, {Key: "--x", Q: true},
+	staticTexts = []string{"x", "a b", "", "q1", "Mixed-Case_9", " pad ", "tail  ", "  lead",
+		// line breaks, tabs and runs of blanks are part of the value: nothing may fold them
+		"line one\n    line two", "a\r\nb", "x\ry", "\ttab \n ", "two\n\nblank", "a  b\tc", "\nlead and tail\n"}
+	multiLineVals = []vals.V{vals.Str("first line\nsecond  line"), vals.Str("a\r\nb"), vals.Str("\ttab\n"), vals.Str("x\ry"), vals.Str("p\n\nq"), vals.Str("  two  blanks\t")}
+	litNames      = []string{"v-if", "v-show", "v-for", ":lang", ":class", "v-bind:id", "v-html", "v-once", "v-else", ":style"}
+	litTexts      = []string{"x", "count", "a > b", "some text", "{a: b}", "item in items", " pad ", "l1\n  l2", "a &&\r\n\tb", "x  y"}
+	simpleVals    = []vals.V{vals.Str("hello"), vals.Str("x"), vals.Int(7), vals.Str(""), vals.Bool(true), vals.Num("float64", "0.5"), vals.Str("a b"), vals.Nil(), vals.Str("first line\nsecond  line"), vals.Str("x\ry")}
+	rowOnVals     = []vals.V{vals.Str("False"), vals.Str("FALSE"), vals.Str("00"), vals.Str(" false"), vals.Int(0), vals.Int(1), vals.Str(""), vals.Str("x"), vals.Nil(), vals.Num("uint8", "0"), vals.Num("float64", "0.5"), vals.Str("0"), vals.Num("float32", "0")}
+	truthyVals    = []vals.V{vals.Bool(true), vals.Int(1), vals.Str("x"), vals.Num("uint8", "3")}
+	classKeys     = []Pair{{Key: "k1"}, {Key: "k-2", Q: true}, {Key: "k3"}, {Key: "k4", Q: true}, {Key: "is-on", Q: true}}
+	styleKeys     = []Pair{{Key: "color"}, {Key: "fontSize"}, {Key: "backgroundColor"}, {Key: "borderTopWidth"}, {Key: "width"}, {Key: "--x", Q: true},
 		{Key: "--myVar", Q: true}, {Key: "margin-top", Q: true}, {Key: "display"}, {Key: "padding"}, {Key: "color", Q: true}}
 	staticDecls = [][2]string{{"color", "blue"}, {"padding", "1px"}, {"width", "3px"}, {"font-size", "9px"}, {"display", "block"}, {"--x", "1"}, {"background-color", "white"}, {"margin-top", "4px"},
 		// the style's own display declarations: kept whatever v-show says, unless v-show is falsy
@@ -1363,7 +1404,7 @@ func (b *builder) pairs(label string, keys []Pair, pool []vals.V, loopVar bool) 
 
 func genCase(f *findings, table []vals.V) func(t *rapid.T) Case {
 	return func(t *rapid.T) Case {
-		c := Case{Tag: pick(t, "tag", []string{"p", "p", "p", "span", "div", "a", "input"}), Data: map[string]vals.V{}}
+		c := Case{Tag: pick(t, "tag", []string{"p", "p", "p", "span", "div", "a", "input", "textarea"}), Data: map[string]vals.V{}}
 		b := &builder{t: t, c: &c, table: table}
 		mode := "normal"
 		// (rapid favours small numbers: the common choice sits at the low end of every range)
@@ -1376,7 +1417,7 @@ func genCase(f *findings, table []vals.V) func(t *rapid.T) Case {
 		}
 		// placement and structural directives
 		if mode != "v-keep" {
-			c.Place = pick(t, "place", []string{"", "", "", "", "", "", "root", "slot", "slot#", "tplfor", "tplfor", "tplfor",
+			c.Place = pick(t, "place", []string{"", "", "", "", "", "", "root", "pre", "slot", "slot#", "tplfor", "tplfor", "tplfor",
 				"sloop", "sloop", "sloop#", "stwice", "stwice", "sdloop", "sdplain"})
 		}
 		multi := multiSlot[c.Place]
@@ -1462,7 +1503,7 @@ func genCase(f *findings, table []vals.V) func(t *rapid.T) Case {
 			lbl := fmt.Sprintf("g%d", i)
 			st := Attr{Kind: "static", Name: name, Text: pick(t, lbl+"-text", staticTexts)}
 			in := func() Attr {
-				a := Attr{Kind: "interp", Name: name, Text: pick(t, lbl+"-pre", []string{"", "a", "a ", " a", "pre-"}), Post: pick(t, lbl+"-post", []string{"", "b", " b", "b ", "-post"})}
+				a := Attr{Kind: "interp", Name: name, Text: pick(t, lbl+"-pre", []string{"", "a", "a ", " a", "pre-", "l1\n  ", "\t"}), Post: pick(t, lbl+"-post", []string{"", "b", " b", "b ", "-post", "\n\nz", "\r\n"})}
 				if b.scoped && chance(t, lbl+"-insp", 30) {
 					a.Path = slotVar + ".v"
 				} else if loop && chance(t, lbl+"-init", 20) {
